@@ -1,4 +1,5 @@
 import CaddyModel.C01.Props
+import CaddyModel.C01.ListenProtocols
 open CaddyModel.C01
 #print axioms rejected_changes_nothing
 #print axioms load_atomic
@@ -29,3 +30,6 @@ open CaddyModel.C01
 #print axioms default_storage_old_code_fails
 #print axioms default_logger_old_code_fails
 #print axioms provision_rollback_sees_every_error
+#print axioms CaddyModel.C01.LP.check_binds_serves
+#print axioms CaddyModel.C01.LP.bound_is_served_or_closed
+#print axioms CaddyModel.C01.LP.server_level_check_leaks
